@@ -46,6 +46,11 @@ type World struct {
 
 	Faults bool // fault menus are choice points
 	Split  bool // begin/end points around every storage operation
+	// Racing: at a destination Push another writer (a second copy into the same destination) may have
+	// stored the same content in the meantime - an input choice per push, offered only when the node's
+	// successors are present (the other writer obeys link closure too). The push then meets ErrAlreadyExists.
+	Racing  bool
+	RacedIn map[int]int
 
 	Cancel context.CancelCauseFunc
 
@@ -78,7 +83,7 @@ func (w *World) Do(f func()) {
 func (w *World) Log(ev string) { w.Do(func() { w.Trace = append(w.Trace, ev) }) }
 
 func NewWorld(d *DAG, conc int) *World {
-	return &World{D: d, Conc: conc, FetchCount: map[int]int{}, PushCount: map[int]int{}, PushDone: map[int]int{}, MountCount: map[int]int{}}
+	return &World{D: d, Conc: conc, FetchCount: map[int]int{}, PushCount: map[int]int{}, PushDone: map[int]int{}, MountCount: map[int]int{}, RacedIn: map[int]int{}}
 }
 
 func (w *World) name(desc ocispec.Descriptor) (int, string) {
@@ -278,6 +283,19 @@ func (t *Dst) Push(ctx context.Context, d ocispec.Descriptor, r io.Reader) error
 	}
 	if t.W.Split {
 		vs.Pt("dst.Push(" + nm + ").store")
+	}
+	if t.W.Racing && id >= 0 {
+		closed := true
+		for _, s := range t.W.D.SuccSet(id, true) {
+			if ok, _ := t.Inner.Exists(ctx, t.W.D.Nodes[s].Desc); !ok {
+				closed = false
+			}
+		}
+		if closed && vs.ChooseAt(2, vs.KInput, "other-writer-first("+nm+")") == 1 {
+			if t.Inner.Push(ctx, d, bytes.NewReader(t.W.D.Nodes[id].Bytes)) == nil {
+				t.W.Do(func() { t.W.RacedIn[id]++ })
+			}
+		}
 	}
 	err := t.Inner.Push(ctx, d, bytes.NewReader(data))
 	if err == nil {
